@@ -381,7 +381,8 @@ def tolerance(ck):
     from nuspacesim.simulation.eas_optical.eas import EAS
     from refmodel import cphot_ref
 
-    pool = [(12.0, 2.0, 1.0), (5.0, 0.5, 10.0), (25.0, 6.0, 0.1)]
+    # (the three angles are in an order whose sorting permutation is a rotation, not a swap: a result handed back at the wrong position shows)
+    pool = [(12.0, 2.0, 1.0), (25.0, 6.0, 0.1), (5.0, 0.5, 10.0)]
     for m_ in (1, 2, 3):
         ev = pool[:m_]
         bb, aa, ee = (np.array([math.radians(e[0]) for e in ev]), np.array([e[1] for e in ev]), np.array([e[2] for e in ev]))
